@@ -967,6 +967,10 @@ mod verif {
             }
             Super(Transform::Select(c)) => o["cids"] = json!(cids(c)),
             SqlTransform::DistinctOn(p) => o["cids"] = json!(cids(p)),
+            // the other operand of a set operation: its columns (the widths of both operands must agree)
+            SqlTransform::Union { bottom, .. }
+            | SqlTransform::Except { bottom, .. }
+            | SqlTransform::Intersect { bottom, .. } => o["rel"] = rel(ctx, bottom),
             _ => (),
         }
         o
